@@ -104,6 +104,9 @@ def run(repo, rep, tier):
         "(R6.4) children created from a template are fresh per slot. (R6.5) quantity names are only written on objects "
         "fresh out of ed(). Decides aliasing/effects in the code's shape, not run-time object graphs."
     )
+    rep.extra["explanation"] += " " + (
+        'Later additions: mutable defaults never become object state (R6.1); unpacking assignments are stores of their own; child slots of borrowed aggregators of unknown class are followed; plotting mixins are analysed with the shapes of their host primitive and their projections are covered by R6.2.'
+    )
     rep.not_decided += ["aliasing introduced by user code (one object passed twice is C16's business)"]
     rep.assumptions += [
         "a + b, a * f, zero(), copy() on a child aggregator return fresh objects (induction: the same rule is checked on every class)",
